@@ -291,17 +291,22 @@ def all_terms(engine):
     return [t for v in engine.input_variables + engine.output_variables for t in v.terms]
 
 
+def close_to_one(fl, x: float) -> bool:
+    """The documented comparison tolerance (settings.atol / rtol), stated independently of Op.is_close."""
+    return math.isfinite(x) and abs(x - 1.0) <= fl.settings.atol + fl.settings.rtol * 1.0
+
+
 def representable(fl, engine) -> bool:
     """The hypothesis of the output clause: heights and weights are 1 or further from 1 than the tolerance, weights on
-    the decimals grid, and no rule is disabled (F5)."""
+    the decimals grid (disabled rules, F5, are handled by the caller)."""
     for t in all_terms(engine):
-        if t.height != 1.0 and bool(fl.Op.is_close(t.height, 1.0)):
+        if t.height != 1.0 and close_to_one(fl, t.height):
             return False
     for rb in engine.rule_blocks:
         for r in rb.rules:
-            if r.weight != 1.0 and bool(fl.Op.is_close(r.weight, 1.0)):
+            if r.weight != 1.0 and close_to_one(fl, r.weight):
                 return False
-            if float(fl.Op.str(float(r.weight))) != r.weight:
+            if float(f"{float(r.weight):.{fl.settings.decimals}f}") != r.weight:
                 return False
     return True
 
@@ -518,6 +523,19 @@ class DumpError(Exception):
     pass
 
 
+_SORT_DICTS = False
+
+
+def canon_lit(fl, v) -> str:
+    """val_lit with dict keys sorted (dicts are equal regardless of insertion order; reprlib prints them sorted)."""
+    global _SORT_DICTS
+    _SORT_DICTS = True
+    try:
+        return val_lit(fl, v)
+    finally:
+        _SORT_DICTS = False
+
+
 def val_lit(fl, v, engine=None) -> str:
     """A Python object as a Model/PyRepr.v `pyval` literal: class name + vars(self) in order."""
     if v is None:
@@ -537,7 +555,8 @@ def val_lit(fl, v, engine=None) -> str:
     if isinstance(v, list):
         return f"(VList {vlib.coq_list(val_lit(fl, y, engine) for y in v)})"
     if isinstance(v, dict):
-        return f"(VDict {vlib.coq_list(f'({cstr(k)}, {val_lit(fl, y, engine)})' for k, y in v.items())})"
+        items = sorted(v.items()) if _SORT_DICTS else list(v.items())
+        return f"(VDict {vlib.coq_list(f'({cstr(k)}, {val_lit(fl, y, engine)})' for k, y in items)})"
     if isinstance(v, fl.WeightedDefuzzifier.Type):
         return f'(VEnum "WeightedDefuzzifier.Type" {cstr(v.name)})'
     if isinstance(v, fl.Threshold.Comparator):
@@ -640,6 +659,7 @@ def check_engine(fl, sk: Sink, engine, info, formatted_combo, alias_m):
     disabled = [(i, j) for i, rb in enumerate(engine.rule_blocks) for j, r in enumerate(rb.rules) if not r.enabled]
     fll0 = str(engine)
     dump0 = val_lit(fl, engine)
+    canon0 = canon_lit(fl, engine)
     for rb in engine.rule_blocks:
         for r in rb.rules:
             sk.weights[bits(r.weight)] = float(r.weight)
@@ -652,7 +672,11 @@ def check_engine(fl, sk: Sink, engine, info, formatted_combo, alias_m):
             texts[(alias, "encapsulated", False)] = fl.PythonExporter(formatted=False, encapsulated=True).to_string(engine)
             if alias == formatted_combo[0]:
                 mode = formatted_combo[1]
-                t = fl.PythonExporter(formatted=True, encapsulated=(mode == "encapsulated")).to_string(engine)
+                try:
+                    t = fl.PythonExporter(formatted=True, encapsulated=(mode == "encapsulated")).to_string(engine)
+                except Exception as ex:  # black refuses text that is not Python
+                    sk.violation(f"pyrepr:engine-export:{type(ex).__name__}", f"formatted export raises ({alias!r}, {mode}): {type(ex).__name__}: {str(ex)[:160]}", engine_replay(fl, engine, info, alias, mode, True))
+                    continue
                 try:
                     import black  # noqa: F401
 
@@ -707,6 +731,8 @@ def check_engine(fl, sk: Sink, engine, info, formatted_combo, alias_m):
             sk.f5_hits += 1
             sk.violation("pyrepr:rule-enabled-lost", f"Rule.enabled=False is not exported: rule {lost[0]} of the rebuilt engine is enabled ({alias!r}, {mode})", rp())
         elif rep_ok:
+            if canon_lit(fl, e2) != canon0:
+                sk.violation("pyrepr:engine-not-identical", f"a representable, freshly built engine is not rebuilt identically: some attribute differs ({alias!r}, {mode}, formatted={fmt})", rp())
             if outputs0 is None:
                 outputs0 = run_rows(engine, rows)  # the original is processed once, after everything was printed and dumped
                 if any(o[0] != "EXC" and any(b != "nan" for b in o) for o in outputs0):
@@ -798,7 +824,7 @@ def work_engine(job):
 
     import fuzzylite as fl
 
-    i, seed = job
+    i, seed, with_model = job
     rng = random.Random(seed)
     sk = Sink()
     combos = [(a, m) for a in ALIASES for m in ("repr", "encapsulated")]
@@ -814,6 +840,8 @@ def work_engine(job):
         import traceback
 
         sk.broken.append(("harness", "harness-crash", f"engine {i} seed {seed}: " + traceback.format_exc()))
+    if not with_model:
+        sk.cases_a, sk.cases_d = [], []
     return sk
 
 
@@ -1038,7 +1066,10 @@ def probe_arguments(fl):
 
 def eval_variant(fl, alias, tree):
     src = expr_src(tree)
-    ns = fresh_namespace(fl, alias)
+    try:
+        ns = fresh_namespace(fl, alias)
+    except Exception as ex:  # the import statement itself is not valid (reported by the engine checks)
+        return src, None, "import:" + type(ex).__name__
     try:
         with np.errstate(all="ignore"):
             v = eval(src, ns)
@@ -1112,7 +1143,10 @@ def run(ctx, build, verdict, ev):
 
     rng = ctx.rng
     n_engines = ctx.n(200, 4000)
-    jobs = [(i, rng.getrandbits(64)) for i in range(n_engines)]
+    # the model (Coq) cases are collected for the first engines only: a deepened quick run (edited sources) searches with the
+    # direct oracle on 5x more engines, the Coq evaluation keeps its size (and its time on a loaded machine)
+    model_engines = 200 if ctx.tier == "quick" else 1500
+    jobs = [(i, rng.getrandbits(64), i < model_engines) for i in range(n_engines)]
     with multiprocessing.get_context("fork").Pool(min(vlib.NPROC, 12)) as pool:
         sinks = pool.map(work_engine, jobs, chunksize=4)
     st = Sink()
@@ -1164,7 +1198,7 @@ def run(ctx, build, verdict, ev):
         groups = [("string * pyval float * pyexpr float * pyval float * option header", "check_a", cases_a),
                   ("string * pyval float * pyexpr float * header", "check_d", cases_b),
                   ("string * pyexpr float * result (pyval float)", "check_c", cases_c)]
-        bad, log = vlib.run_coq_cases(ctx.work, "c15", coq_env(st, fl), groups, chunk=ctx.n(100, 200))
+        bad, log = vlib.run_coq_cases(ctx.work, "c15", coq_env(st, fl), groups, chunk=(100 if ctx.tier == "quick" else 200), timeout=2400)
         index = index_a + index_b + index_c
         for k in bad:
             if k < 0:
